@@ -1,1 +1,135 @@
+(* Canonical printer of TRANSFAC files (the inverse direction of the reader), the
+   boolean well-formedness condition [wf_file] of what it prints, and the records the
+   reader is expected to return.  The harness' `print_canon` is a Rust copy of
+   [print_file]; the driver compares their outputs byte for byte on every canonical
+   case.  No proofs in this file. *)
+From Coq Require Import List Bool Arith NArith.
+From Coq Require Import Init.Byte.
+From LMTransfac Require Import Bytes Nom TransfacParse.
+Import ListNotations.
+Local Open Scope byte_scope.
 
+Record prow := mkRow { pr_label : str; pr_toks : list str }.
+
+Record prec := mkPrec {
+  p_id : option str;
+  p_ac : option str;
+  p_na : option str;
+  p_de : option str;
+  p_syms : str;               (* symbol letters of the P0 line, in file order; [] = no matrix *)
+  p_rows : list prow }.
+
+Definition eol_of (crlf : bool) : str := if crlf then [x0d; x0a] else [x0a].
+
+Definition xx_line (eol : str) : str := ["X"; "X"] ++ eol.
+
+Definition print_field (a b : byte) (eol : str) (v : option str) : str :=
+  match v with
+  | None => []
+  | Some x => [a; b; " "; " "] ++ x ++ eol ++ xx_line eol
+  end.
+
+Definition print_row (eol : str) (r : prow) : str :=
+  pr_label r ++ flat_map (fun t => [" "; " "] ++ t) (pr_toks r) ++ eol.
+
+Definition print_matrix (eol : str) (syms : str) (rows : list prow) : str :=
+  match syms with
+  | [] => []
+  | _ => ["P"; "0"] ++ flat_map (fun c => [" "; " "; " "; " "; " "; " "; c]) syms ++ eol
+         ++ flat_map (print_row eol) rows ++ xx_line eol
+  end.
+
+Definition print_body (eol : str) (r : prec) : str :=
+  print_field "A" "C" eol (p_ac r) ++ print_field "I" "D" eol (p_id r) ++
+  print_field "N" "A" eol (p_na r) ++ print_field "D" "E" eol (p_de r) ++
+  print_matrix eol (p_syms r) (p_rows r).
+
+(* a record with its "//" line; [term] = the line ending after "//" (possibly none for the last) *)
+Definition print_record (eol term : str) (r : prec) : str :=
+  print_body eol r ++ ["/"; "/"] ++ term.
+
+Fixpoint print_records (eol : str) (fnl : bool) (rs : list prec) : str :=
+  match rs with
+  | [] => []
+  | [r] => print_record eol (if fnl then eol else []) r
+  | r :: t => print_record eol eol r ++ print_records eol fnl t
+  end.
+
+Definition print_header (eol : str) (vv : option str) : str :=
+  match vv with
+  | None => []
+  | Some v => ["V"; "V"; " "; " "] ++ v ++ eol ++ xx_line eol ++ ["/"; "/"] ++ eol
+  end.
+
+Definition print_file (vv : option str) (crlf fnl : bool) (rs : list prec) : str :=
+  print_header (eol_of crlf) vv ++ print_records (eol_of crlf) fnl rs.
+
+(* ---- what the reader must return ---- *)
+
+Fixpoint sym_indices (al : alpha) (syms : str) : option (list nat) :=
+  match syms with
+  | [] => Some []
+  | c :: t => match sym_index al c, sym_indices al t with
+              | Some k, Some l => Some (k :: l)
+              | _, _ => None
+              end
+  end.
+
+Definition expected_record (al : alpha) (r : prec) : record :=
+  mkRec (p_id r) (p_ac r) (p_na r) (p_de r)
+        (match p_syms r, sym_indices al (p_syms r) with
+         | _ :: _, Some idx => Some (build_matrix al idx (map pr_toks (p_rows r)))
+         | _, _ => None
+         end)
+        [].
+
+(* ---- well-formedness of a printable file ---- *)
+
+Definition no_nl (s : str) : bool := forallb (fun b => negb (is_nl b)) s.
+
+(* a metadata value: one line, valid UTF-8, nothing that `trim()` would remove *)
+Definition field_ok (s : str) : bool :=
+  no_nl s && utf8_valid s && str_eqb (trim s) s.
+Definition ofield_ok (o : option str) : bool :=
+  match o with None => true | Some s => field_ok s end.
+
+(* a row label: what `nom::character::complete::u32` accepts entirely *)
+Definition label_ok (l : str) : bool :=
+  match u32 l with POk _ [] => true | _ => false end.
+
+(* a count: digits, optionally followed by '.' and digits *)
+Definition all_digits (s : str) : bool :=
+  match s with [] => false | _ => forallb is_digit s end.
+Definition token_ok (t : str) : bool :=
+  let '(ip, r) := span is_digit t in
+  match ip, r with
+  | _ :: _, [] => true
+  | _ :: _, "." :: fp => all_digits fp
+  | _, _ => false
+  end.
+
+Fixpoint nodupb (l : str) : bool :=
+  match l with
+  | [] => true
+  | c :: t => negb (existsb (beq c) t) && nodupb t
+  end.
+
+Definition row_ok (k : nat) (r : prow) : bool :=
+  label_ok (pr_label r) && Nat.eqb (length (pr_toks r)) k && forallb token_ok (pr_toks r).
+
+Definition prec_ok (al : alpha) (r : prec) : bool :=
+  ofield_ok (p_id r) && ofield_ok (p_ac r) && ofield_ok (p_na r) && ofield_ok (p_de r) &&
+  match p_syms r with
+  | [] => match p_rows r with [] => true | _ => false end
+  | syms =>
+      match sym_indices al syms with Some _ => true | None => false end &&
+      nodupb syms &&
+      match p_rows r with [] => false | _ => true end &&
+      forallb (row_ok (length syms)) (p_rows r)
+  end.
+
+Definition vv_ok (vv : option str) : bool :=
+  match vv with None => true | Some v => no_nl v && utf8_valid v end.
+
+Definition wf_file (al : alpha) (vv : option str) (rs : list prec) : bool :=
+  vv_ok vv && forallb (prec_ok al) rs.
